@@ -1,37 +1,228 @@
-# C19 — printf/fmt formatting matches the C standard and the documented spec grammar (prototype)
+# C19 — printf/fmt formatting matches the C standard and the documented spec grammar
+#
+# Decomposition (forced by measurement, see DESIGN.md section 4 "C19" and the notes at the end of this file):
+#   parse.*   (A) printf_format alone, recording agent: every directive of the grammar (all pieces solver-chosen) -> the options,
+#                 conversion, length modifier and argument handed to the agent; literal text in order
+#   opts.*    (B) do_printf_ints / do_printf_chars alone: flags, width, precision solver-chosen; conversion x length modifier x
+#                 value class fixed per query (so that symbolic execution follows ONE conversion path)
+#   e2e.*     (C) the whole pipeline printf_format + do_printf_* on formats whose SHAPE is pinned per query (a covering family,
+#                 incl. positional n$ and several directives); * arguments and values solver-chosen
+#   poparg.*      pop_arg histories: sequential and positional (cache) fetches of all argument types
+#   digits.*      print_digits / print_int alone: radix 16/8/2 at full 64-bit width, radix 10 for all values < 10^D
+#   fmt.*         fmt(): templates of literal text + {}-specs with solver-chosen digits / stray bytes against the documented grammar
+#   log.*         stack_buffer_logger<sink,8>: messages of every length 0..3*Limit in solver-chosen pieces through all append paths
+# The oracle (harness/c19_printf.c: ref_directive) is cross-checked against glibc snprintf natively on EVERY run (prepare()).
 import os, sys, re, subprocess
 sys.path.insert(0, os.path.join(os.path.dirname(__file__), '..', 'engine'))
 from run import Q, Unit, VERIF, ENGINE
 Broken = getattr(sys.modules.get('__main__'), 'Broken', RuntimeError)    # the runner's own exception class (run.py executes as __main__)
-UNITS = [Unit('c19_printf')]
+UNITS = [Unit('c19_printf'), Unit('c19_fmt'), Unit('c19_log')]
 NOPIN = -1000
 ALLQ = []
+CONVS = 'diuoxXcsp%bB'
+LMS = ['', 'hh', 'h', 'l', 'll', 'z', 't', 'j']
+FLAGCH = "-+ #'0"      # bit order used by the harness: 1 '-', 2 '+', 4 ' ', 8 '#', 16 '0', 32 '\''
+
 def pins(*ds):
     rows = []
     for d in list(ds) + [{}] * (3 - len(ds)):
         rows.append('{' + ','.join(str(d.get(k, NOPIN)) for k in ('flags', 'wmode', 'width', 'pmode', 'prec', 'lm', 'conv', 'pos', 'vclass')) + '}')
     return '{' + ','.join(rows) + '}'
-def PQ(name, entry, defs, wmax, digits, dec_digits=4, **kw):
-    """a printf query: loop bounds follow from the width/precision bound and the number of digits"""
-    b = max(wmax, digits) + 2
-    defs = dict(defs); defs['WMAX'] = wmax
+
+def ndigits(conv, vclass, dmax_digits=3):
+    c = CONVS[conv]
+    if c in 'diu': return dmax_digits if vclass == 0 else 20
+    return {'o': 22, 'x': 16, 'X': 16, 'p': 16, 'b': 64, 'B': 64}.get(c, 1)
+
+def PQ(name, entry, defs, wmax, digits, slen=5, ndir=1, **kw):
+    """a printf query: all loop bounds follow from the width/precision bound and the number of digits (unwinding assertions on)"""
+    b = max(wmax, digits, slen) + 2
+    defs = dict(defs); defs['WMAX'] = wmax; defs['NDIR'] = ndir
+    kw.setdefault('timeout', 900); kw.setdefault('mem_gb', 4)
     q = Q(name, 'c19_printf', 'c19_printf.c', entry, defs=defs, unwind=b,
-          unwind_fn=[(r'printf_format', 12), (r'do_printf', wmax + 2), (r'^ref_dec', dec_digits + 1), (r'^ref_number', digits + 2), (r'^(put_|choose|harness)', 12), (r'^ir2c_', 40)],
-          inline_witness=True, timeout=600, mem_gb=6, **kw)
-    q.c19 = {'digit_loop': digits + 1, 'pad_loops': wmax + 2}
+          unwind_fn=[(r'printf_format', 8), (r'do_printf', b), (r'^ref_dec', digits + 2), (r'^ref_number', digits + 2), (r'^ref_(finish|at)', 8),
+                     (r'^(put_|choose|harness)', 12), (r'^ir2c_', 40)],
+          inline_witness=True, **kw)
+    q.c19 = {'digit_loop': digits + 2, 'pad_loops': b}
     return q
+
+def dir_defined(conv, lm, flags, wmode, pmode):
+    c = CONVS[conv]
+    if c in 'diuoxXbB':
+        if flags & 8 and c in 'diu': return False
+        if flags & 32 and c not in 'diu': return False
+        return True
+    if lm or flags & ~1: return False
+    if c == 'c': return pmode == 0
+    if c == 's': return True
+    return not flags and wmode == 0 and pmode == 0
+
+def fmt_of(d):
+    s = '%'
+    if CONVS[d['conv']] == '%': return '%%'
+    if d.get('pos'): s += '%d$' % d['pos']
+    fl = ''.join(ch for i, ch in enumerate("-+ #0'") if d.get('flags', 0) & [1, 2, 4, 8, 16, 32][i])
+    s += fl[::-1] if d.get('flags', 0) & 64 else fl
+    s += {0: '', 1: str(d.get('width', 0)), 2: '*'}[d.get('wmode', 0)]
+    s += {0: '', 1: '.' + str(d.get('prec', 0)), 2: '.*', 3: '.'}[d.get('pmode', 0)]
+    return s + LMS[d.get('lm', 0)] + CONVS[d['conv']]
+
+def e2e_family(tier):
+    """a covering family of pinned format shapes: every conversion x length modifier, each with several flag / width / precision shapes
+    drawn round-robin from the lists below (all pairs of (flag set, width kind), (flag set, precision kind) occur for the integer conversions)"""
+    FL = [0, 1, 16, 2, 4, 8, 17, 18, 20, 24, 9, 32, 48, 3, 6, 1 | 64 | 16, 2 | 16 | 64 | 4, 63 & ~8 | 64, 8 | 16 | 1 | 64]
+    W = [(0, 0), (1, 1), (1, 5), (1, 12), (1, 70), (2, 0)]
+    P = [(0, 0), (3, 0), (1, 0), (1, 1), (1, 7), (1, 70), (2, 0)]
+    per = 3 if tier == 'quick' else 14
+    out = []; seen = set()
+    for conv in range(12):
+        for lm in range(8):
+            k = 0; i = 0
+            while k < per and i < 400:
+                fl = FL[(i * 7 + conv + 3 * lm) % len(FL)]; w = W[(i * 5 + lm + conv) % len(W)]; p = P[(i * 3 + conv * 2 + lm) % len(P)]
+                vc = (i * 4 + conv + lm * 2) % 9
+                i += 1
+                if CONVS[conv] in 'diu': fl &= ~8
+                else: fl &= ~32
+                if not dir_defined(conv, lm, fl & 63, w[0], p[0]):
+                    if CONVS[conv] in 'csp%' and lm == 0 and k == 0 and i > 40:   # the few defined shapes of c s p %
+                        fl = 0; w = (0, 0); p = (0, 0)
+                    else: continue
+                if CONVS[conv] not in 'diuoxXbB': vc = 0
+                d = {'conv': conv, 'lm': lm, 'flags': fl, 'wmode': w[0], 'width': w[1] if w[0] == 1 else NOPIN, 'pmode': p[0], 'prec': p[1] if p[0] == 1 else NOPIN, 'pos': 0, 'vclass': vc}
+                key = (fmt_of(d), vc)
+                if key in seen: continue
+                seen.add(key); out.append(d); k += 1
+    # the shapes of c s p % (only '-' / width / precision are defined for them)
+    for d in [{'conv': 6}, {'conv': 6, 'flags': 1, 'wmode': 1, 'width': 4}, {'conv': 6, 'wmode': 2}, {'conv': 7}, {'conv': 7, 'wmode': 1, 'width': 8, 'pmode': 1, 'prec': 3},
+              {'conv': 7, 'flags': 1, 'wmode': 2, 'pmode': 2}, {'conv': 7, 'pmode': 3}, {'conv': 8}, {'conv': 9}]:
+        dd = {'lm': 0, 'flags': 0, 'wmode': 0, 'width': NOPIN, 'pmode': 0, 'prec': NOPIN, 'pos': 0, 'vclass': 0}; dd.update(d)
+        if (fmt_of(dd), 0) not in seen: seen.add((fmt_of(dd), 0)); out.append(dd)
+    return out
+
+def positional_family(tier):
+    """numbered directives %n$...: (position, conversion, length modifier, width) sequences that reference every argument 1..max (POSIX) and do not
+    read an argument with a wider type than it was first fetched with (known finding printf-positional-widening, shown by poparg.known)"""
+    d_, ld, s_, c_, x_, u_ = (0, 0), (0, 3), (7, 0), (6, 0), (4, 0), (2, 0)
+    fam = [[(2, d_), (1, d_)], [(2, d_), (1, d_), (2, d_)], [(1, d_), (1, x_)], [(3, d_), (1, d_), (2, u_)], [(1, s_), (2, d_)], [(2, ld), (1, ld), (2, ld)],
+           [(2, s_), (1, s_)], [(1, c_), (1, c_)], [(2, x_), (2, x_), (1, u_)], [(1, ld), (2, d_), (1, ld)]]
+    if tier == 'thorough':
+        fam += [[(3, ld), (2, s_), (1, ld)], [(1, d_), (2, d_), (3, d_)], [(3, d_), (2, d_), (1, d_)], [(2, s_), (1, d_)], [(1, x_), (2, ld), (2, d_)]]
+    out = []
+    for seq in fam:
+        ds = []
+        for j, (pos, (conv, lm)) in enumerate(seq):
+            ds.append({'conv': conv, 'lm': lm, 'flags': 0 if conv in (6, 7) else [0, 16, 1][j % 3], 'wmode': 1 if j % 2 else 0, 'width': 4 if j % 2 else NOPIN, 'pmode': 0, 'prec': NOPIN, 'pos': pos, 'vclass': 0})
+        out.append(ds)
+    return out
+
+FMT_TEMPLATES = [
+    # (template, decimal rendering possible, width bound, quick?)   'D' = solver-chosen digit, '?' = solver-chosen byte (not a brace)
+    ('{}', 1, 0, 1), ('a{}b{}c{}d', 1, 0, 1), ('{}{}{}{}', 1, 0, 1), ('{D}', 1, 0, 1), ('{DD}', 1, 0, 1), ('x{D}y{D}z', 1, 0, 1), ('{D}{}', 1, 0, 0),
+    ('{:x}', 0, 0, 1), ('{:X}', 0, 0, 1), ('{:b}', 0, 0, 1), ('{:o}', 0, 0, 1), ('{:d}', 1, 0, 1), ('{:i}', 1, 0, 1), ('{:c}', 0, 0, 1), ('{D:c}', 0, 0, 1), ('{:}', 1, 0, 1), ('{D:}', 1, 0, 1),
+    ('{:0Dx}', 0, 9, 1), ('{:1Dx}', 0, 19, 1), ('{D:01DX}', 0, 19, 1), ('{:0Dd}', 1, 9, 1), ('{D:Dd}', 1, 9, 1), ('{:D}', 1, 9, 1), ('{:0D}', 1, 9, 1), ('{:00D}', 1, 9, 0), ('{D:0Do}', 0, 9, 1), ('{D:1Db}', 0, 19, 1),
+    ('{:070d}', 1, 70, 1), ('{D:70x}', 0, 70, 0), ('{:064b}', 0, 64, 0),
+    ('{:08X}{}', 1, 8, 1), ('{:0Dx}{:d}{:c}', 1, 9, 1), ('{D:X}{D:Dd}', 1, 9, 1), ('{:b}{:Do}', 0, 9, 0),          # a later spec must not inherit options
+    ('{{}', 1, 0, 1), ('{{{}', 1, 0, 1), ('}{', 1, 0, 1), ('{', 1, 0, 1), ('{:', 1, 0, 1), ('{:0D', 1, 0, 1), ('ab{', 1, 0, 1), ('{}}', 1, 0, 1), ('{{}}', 1, 0, 1), ('a{{b', 1, 0, 0),
+    ('{:h}', 1, 0, 1), ('{:?}', 1, 0, 1), ('{?}', 1, 0, 1), ('{D?}', 1, 0, 1), ('{:D?}', 1, 9, 1), ('{:x?}', 0, 0, 1), ('{::}', 1, 0, 1), ('{D:D:}', 1, 9, 0), ('{: x}', 0, 0, 1), ('{?:x}', 0, 0, 1),
+    ('{:xD}', 0, 0, 1), ('{:-Dd}', 1, 0, 0), ('{D}{?}{}', 1, 0, 0), ('{:h}{}', 1, 0, 1), ('{D}{D}{D}', 1, 0, 0),
+]
+
 def queries(tier):
     qs = []
-    for conv in range(0, 12):
-        for lm in range(8):
-            for vc in range(0, 2):
-                radix10 = conv in (0, 1, 2)
-                digits = 4 if radix10 and vc == 0 else 20 if radix10 else 64 if conv >= 10 else 22 if conv == 3 else 16
-                qs.append(PQ('opts.c%d.l%d.v%d' % (conv, lm, vc), 'harness_opts', {'PINS': pins({'conv': conv, 'lm': lm, 'vclass': vc})}, 12, digits))
+    quick = tier == 'quick'
+    WB = 12 if quick else 24           # symbolic width/precision bound of the (B) queries (larger values: concrete, in e2e.* and thorough opts.w70.*)
+    D10 = 3                            # radix-10 digit bound of the layout queries
+    # ---------------------------------------------------------------- (A) parser
+    for nd, only_q in ((1, True), (2, True), (3, False)):
+        if quick and not only_q: continue
+        qs.append(PQ('parse.n%d' % nd, 'harness_parse', {}, 70, 1, ndir=nd, timeout=1500, mem_gb=6,
+                     bounds={'directives': nd, 'flags': 'any subset of - + space # 0 \', either order', 'width': 'none / 1..70 / * with argument -70..70', 'precision': 'none / . / .0...70 / .* with argument -2..70',
+                             'length modifier': 'none hh h l ll z t j', 'conversion': 'd i u o x X c s p % b B', 'n$': 'none or 1..3 on every directive', 'literal text': 'optional byte before, between, after', 'argument words': 'arbitrary 64-bit'},
+                     what='printf_format hands the agent exactly the directive written (%d directive%s): conversion, length modifier, flags, width, precision, n$; * arguments and the value are fetched in order; literal text passes through' % (nd, 's' if nd > 1 else '')))
+    # ---------------------------------------------------------------- (B) conversion back ends
+    int_convs = [0, 2, 3, 4, 5, 10] if quick else [0, 1, 2, 3, 4, 5, 10, 11]
+    lms = [0, 1, 2, 3] if quick else list(range(8))
+    for conv in int_convs:
+        for lm in lms:
+            vcs = [0] + ([3, 4, 5] if conv in (0, 2, 3, 4) else []) if quick else list(range(9))
+            for vc in vcs:
+                dg = ndigits(conv, vc, D10)
+                qs.append(PQ('opts.%s%s.v%d' % (LMS[lm], CONVS[conv], vc), 'harness_opts', {'PINS': pins({'conv': conv, 'lm': lm, 'vclass': vc})}, WB, dg,
+                             bounds={'conversion': '%' + LMS[lm] + CONVS[conv], 'flags': 'any subset ISO C defines for the conversion', 'width': '0..%d' % WB, 'precision': 'absent or 0..%d' % WB,
+                                     'value': ('every argument word whose converted value is below 10^%d in magnitude' % D10 if CONVS[conv] in 'diu' else 'every 64-bit argument word') if vc == 0 else 'boundary constant #%d of the length modifier (0, 1, -1/max, min, max, and words differing only in discarded bits)' % vc},
+                             what='do_printf_ints %%%s%s: output equals ISO C for every flag set, width and precision' % (LMS[lm], CONVS[conv])))
+    for conv in (6, 7, 8):
+        qs.append(PQ('opts.%s' % CONVS[conv], 'harness_opts', {'PINS': pins({'conv': conv, 'lm': 0, 'vclass': 0})}, 70 if conv != 8 else 1, ndigits(conv, 0),
+                     bounds={'conversion': '%' + CONVS[conv], 'flags': '- or none', 'width': '0..70', 'precision': 'absent or 0..70 (s only)', 'value': 'any character / any string of up to 5 bytes / any 64-bit pointer value'},
+                     what='do_printf_chars %%%s: padding, precision truncation, 0x<hex> pointer form' % CONVS[conv]))
+    if not quick:
+        for conv in (0, 2, 3, 4, 10):
+            for vc in (0, 3, 4):
+                qs.append(PQ('opts.w70.%s.v%d' % (CONVS[conv], vc), 'harness_opts', {'PINS': pins({'conv': conv, 'lm': 3, 'vclass': vc})}, 70, ndigits(conv, vc, D10), timeout=3000, mem_gb=8,
+                             bounds={'conversion': '%l' + CONVS[conv], 'width': '0..70', 'precision': 'absent or 0..70'}, what='do_printf_ints %%l%s with width and precision up to 70' % CONVS[conv]))
+    # ---------------------------------------------------------------- (C) whole pipeline on pinned shapes
+    for d in e2e_family(tier):
+        f = fmt_of(d); wm = max(d['width'] if d['wmode'] == 1 else 12 if d['wmode'] == 2 else 0, d['prec'] if d['pmode'] == 1 else 12 if d['pmode'] == 2 else 0, 1)
+        qs.append(PQ('e2e[%s].v%d' % (f, d['vclass']), 'harness_layout', {'PINS': pins(d)}, wm, ndigits(d['conv'], d['vclass'], D10), timeout=600, mem_gb=3,
+                     bounds={'format': f, '* arguments': '-%d..%d / -2..%d' % (wm, wm, wm), 'value class': d['vclass'], 'literal text': 'optional byte before and after'},
+                     what='printf_format + do_printf_* on "%s": output equals ISO C' % f))
+    for ds in positional_family(tier):
+        f = ' '.join(fmt_of(d) for d in ds)
+        qs.append(PQ('e2e[%s]' % f, 'harness_layout', {'PINS': pins(*ds)}, 4, D10, ndir=len(ds), timeout=600, mem_gb=3,
+                     bounds={'format': f, 'values': 'decimal below 10^%d in magnitude, else any' % D10}, what='numbered arguments: "%s" prints each designated argument' % f))
+    # ---------------------------------------------------------------- pop_arg
+    for k in ([3] if quick else [3, 4]):
+        qs.append(Q('poparg.k%d' % k, 'c19_printf', 'c19_printf.c', 'harness_poparg', defs={'K': k}, unwind=12, inline_witness=True, timeout=900, mem_gb=4,
+                    bounds={'fetches': k, 'argument words': 4, 'types': 'int long void* signed/unsigned char/short unsigned unsigned long', 'mode': 'all sequential, or all positional with positions 1..4'},
+                    what='pop_arg: every history of %d fetches returns the designated argument converted to the requested type (positional cache included)' % k))
+    qs.append(Q('poparg.known.widening', 'c19_printf', 'c19_printf.c', 'harness_poparg', defs={'K': 2, 'KF_WIDENING': 1}, unwind=12, kind='known', known='printf-positional-widening',
+                match='pop_arg yields the argument', timeout=600, mem_gb=4, bounds={'fetches': 2},
+                what='known finding: an argument first cached with a narrow type (e.g. %2$d caching argument 1 as int) is later read with a wider one (%1$ld / %1$s)'))
+    # ---------------------------------------------------------------- digit kernel
+    for r, dg in ((16, 16), (8, 22), (2, 64)):
+        qs.append(PQ('digits.r%d' % r, 'harness_digits', {'RADIX': r}, 6 if quick else 12, dg, bounds={'radix': r, 'value': 'any 64-bit magnitude, either sign; print_int<int64>/<int32> incl. the most negative value', 'width/precision': '0..%d' % (6 if quick else 12)},
+                     what='print_digits/print_int radix %d at full width' % r))
+    for dd in ([3] if quick else [3, 4, 5]):
+        qs.append(PQ('digits.r10.d%d' % dd, 'harness_digits', {'RADIX': 10, 'DMAX': 10 ** dd}, 6, dd, timeout=3000 if dd > 3 else 900, optional=dd > 4,
+                     bounds={'radix': 10, 'value': 'every magnitude below 10^%d, either sign' % dd, 'width/precision': '0..6'}, what='print_digits/print_int radix 10, all values below 10^%d' % dd))
+    # ---------------------------------------------------------------- fmt()
+    for (t, dec, wm, inq) in FMT_TEMPLATES:
+        if quick and not inq: continue
+        fvs = [0] if quick else [0, 3, 4, 5]
+        if quick and t in ('{}', '{:x}', '{:0Dd}', 'a{}b{}c{}d'): fvs = [0, 3, 4]
+        for fv in fvs:
+            dg = 64 if 'b' in t else 22 if 'o' in t else 16 if not dec else 20 if fv else D10
+            dg = max(dg, 20 if fv else D10) if dec else dg
+            b = max(wm, dg) + 2
+            defs = {'TEMPLATE': '"%s"' % t, 'FV': fv}
+            if dec: defs['DEC'] = 1
+            qs.append(Q('fmt[%s].v%d' % (t, fv), 'c19_fmt', 'c19_fmt.c', 'harness_fmt', defs=defs, unwind=max(b, len(t) + 3),
+                        unwind_fn=[(r'^ref_dec', dg + 2), (r'^ref_number', dg + 2), (r'^ref_(finish|at)', 8), (r'parse_fmt_spec|format_object|fmt_ref|spec_parse|harness', len(t) + 3)],
+                        inline_witness=True, timeout=600, mem_gb=3,
+                        bounds={'template': t, 'D': 'any digit', '?': 'any byte except braces', 'arguments': '(int, unsigned long, char): ' + ('any, decimal renderings below 10^%d in magnitude' % D10 if fv == 0 else 'boundary tuple #%d' % fv)},
+                        what='fmt("%s", int, unsigned long, char) renders per the documented grammar; malformed / out-of-range specs echoed' % t))
+    for t in ['{}', 'a{D}b', '{:x}']:
+        qs.append(Q('fmt0[%s]' % t, 'c19_fmt', 'c19_fmt.c', 'harness_fmt', defs={'TEMPLATE': '"%s"' % t, 'NARGS': 0}, unwind=12, inline_witness=True, timeout=300, mem_gb=2,
+                    bounds={'template': t, 'arguments': 'none'}, what='fmt("%s") without arguments echoes every spec' % t))
+    # ---------------------------------------------------------------- logger
+    for n in (range(0, 25) if not quick else [0, 1, 6, 7, 8, 9, 13, 14, 15, 16, 20, 21, 22, 24]):
+        qs.append(Q('log.len%d' % n, 'c19_log', 'c19_log.c', 'harness_log', defs={'LEN': n}, unwind=max(n, 8) + 3, inline_witness=True, timeout=600, mem_gb=3,
+                    bounds={'message length': n, 'Limit': 8, 'pieces': '3 of solver-chosen lengths, each through append(char) / append(const char*) / operator<<(const char*)', 'endlog': 'with and without'},
+                    what='stack_buffer_logger<sink,8>: a %d-byte message reaches the sink complete, in order, in chunks of at most 7 bytes' % n))
     ALLQ[:] = qs
     return qs
+
 def prepare(R):
-    """per-loop bounds for print_digits: the digit loop (the one that divides) gets the digit bound, the padding loops the width bound"""
+    # 1. the oracle and the format assembler against glibc snprintf (native, ~17 million directive/value combinations)
+    exe = os.path.join(R.work, 'c19_xcheck')
+    r = subprocess.run(['gcc', '-std=gnu11', '-O1', '-w', '-DC19_XCHECK', '-DVP_NATIVE', '-I', ENGINE, '-I', os.path.join(VERIF, 'harness'), os.path.join(VERIF, 'harness', 'c19_printf.c'), '-o', exe],
+                       stdout=subprocess.PIPE, stderr=subprocess.STDOUT, text=True)
+    if r.returncode != 0: raise Broken('C19 oracle cross-check does not build:\n' + r.stdout[-2000:])
+    r = subprocess.run([exe], stdout=subprocess.PIPE, stderr=subprocess.STDOUT, text=True)
+    if r.returncode != 0: raise Broken('C19: the ISO C interpreter of the harness disagrees with glibc snprintf:\n' + r.stdout[-3000:])
+    R.say('[oracle] ' + r.stdout.strip().split('\n')[-1])
+    # 2. per-loop bounds for print_digits: the digit loop (the one that divides) gets the digit bound, all other loops the width bound
     c = os.path.join(R.work, 'c19_printf.c')
     r = subprocess.run(['cbmc', os.path.join(VERIF, 'harness', 'c19_printf.c'), c, '--function', 'harness_opts', '-I', R.work, '-I', ENGINE, '-I', os.path.join(VERIF, 'harness'), '--show-loops'],
                        stdout=subprocess.PIPE, stderr=subprocess.STDOUT, text=True)
@@ -43,17 +234,38 @@ def prepare(R):
     digit, pad = [], []
     for fn, ls in loops.items():
         ls.sort()
-        # the function's body: from its definition to the last loop; the digit loop is the first loop closing after the udiv
-        start = max(i for i, l in enumerate(src[:ls[0][0]]) if l.startswith('void ' + fn) or (fn + '(') in l and l.rstrip().endswith('{'))
+        start = max(i for i, l in enumerate(src[:ls[0][0]]) if (fn + '(') in l and l.rstrip().endswith('{'))
         div = [i + 1 for i in range(start, ls[-1][0]) if '"udiv"' in src[i] or '"sdiv"' in src[i]]
         if len(div) != 1: raise Broken('C19 prepare: expected exactly one division in %s, found %d' % (fn, len(div)))
         dl = min(l for l in ls if l[0] >= div[0])
         for l in ls: (digit if l == dl else pad).append('%s.%d' % (fn, l[1]))
     for q in ALLQ:
-        if hasattr(q, 'c19'):
+        if hasattr(q, 'c19') and not getattr(q, '_c19_done', False):
             q.unwindset = list(q.unwindset) + ['%s:%d' % (l, q.c19['digit_loop']) for l in digit] + ['%s:%d' % (l, q.c19['pad_loops']) for l in pad]
+            q._c19_done = True
+
 def validation_queries(tier):
-    return [Q('layout.validate', 'c19_printf', 'c19_printf.c', 'harness_layout'), Q('parse.validate', 'c19_printf', 'c19_printf.c', 'harness_parse', defs={'NDIR': 2}),
-            Q('opts.validate', 'c19_printf', 'c19_printf.c', 'harness_opts'), Q('poparg.validate', 'c19_printf', 'c19_printf.c', 'harness_poparg'),
-            Q('digits.validate', 'c19_printf', 'c19_printf.c', 'harness_digits', defs={'RADIX': 10})]
-VALIDATE_VECTORS = 5
+    V = lambda n, e, h='c19_printf', d=None: Q(n, h, h + '.c', e, defs=d or {})
+    return [V('layout.validate', 'harness_layout', d={'NDIR': 2}), V('parse.validate', 'harness_parse', d={'NDIR': 2}), V('opts.validate', 'harness_opts'), V('poparg.validate', 'harness_poparg', d={'K': 4}),
+            V('digits10.validate', 'harness_digits', d={'RADIX': 10}), V('digits16.validate', 'harness_digits', d={'RADIX': 16}),
+            V('fmt.validate', 'harness_fmt', 'c19_fmt', {'TEMPLATE': '"a{D:0Dx}b{}c{:?}{D}"', 'DEC': 1}), V('fmt2.validate', 'harness_fmt', 'c19_fmt', {'TEMPLATE': '"{:c}{:1Db}{{{D:X}"'}),
+            V('log.validate', 'harness_log', 'c19_log', {'LEN': 17})]
+VALIDATE_VECTORS = 20
+LEVEL = 'model_checking'
+TECHNIQUE = ('bounded model checking (CBMC, SAT) of the clang-lowered real code against an independent ISO C interpreter written in the harness (cross-checked against glibc snprintf natively on every run); '
+             'the sink compares every byte on the spot with the byte the interpreter expects at that position')
+FUNCTION_PATTERNS = [r'frg::', r'^c19_']
+ASSUMPTIONS = [
+    'decomposition at the agent interface: parse.* prove that printf_format hands the agent exactly the written directive (and fetches * arguments in order); opts.* prove that do_printf_ints/do_printf_chars '
+    'render every such option set per ISO C; e2e.* re-check the composition on a covering family of concrete format shapes.  The agent is the one of the repository\'s own test (dispatch on the conversion character)',
+    'argument passing: System V x86-64 va_list with the register save area exhausted (every variadic argument in one 8-byte overflow slot, upper half of int-class arguments arbitrary)',
+    'radix-10 conversions: argument values below 10^3 in magnitude (solver-chosen) plus the concrete boundary values 0, +-1, min, max (and neighbours) of every length modifier; radix 16/8/2: every 64-bit value',
+    'combinations ISO C leaves undefined are not demanded: # with d i u c s p, 0 with c s p, a precision with c p, length modifiers with c s p, flags other than - with c s; %p and %% in their bare forms (frigg documents 0x<hex>); the \' flag in the "C" locale (no grouping)',
+    'numbered arguments (n$): every argument 1..max is referenced (POSIX), width/precision literal (frigg has no *m$), and no argument is read with a wider type than the one it was first fetched with (known finding printf-positional-widening)',
+    'fmt(): a spec without a position takes the argument whose index is the number of specs closed before it; a width or zero fill together with the c conversion is undocumented and not demanded',
+    'clang-14 -O1 lowering is the semantics checked; the ir2c translation is validated differentially (generated C vs g++ build of the real headers) on every run',
+]
+OUTSIDE = ['floating-point conversions (%f %e %g), %ls / %lc, %n', 'radix-10 values with more than 3 digits other than the boundary constants (digit kernel: digits.r10.* cover up to 10^5 in the thorough tier)',
+           'widths and precisions above 70; symbolic widths above 12 (quick) / 24 (thorough) in opts.* — larger ones are concrete (e2e.*, opts.w70.*)',
+           'locale_options other than the default (thousands separators / grouping strings)', 'agents other than the test agent; sinks that fail',
+           'fmt() argument types other than int, unsigned long, char; more than three arguments', 'logger Limit other than 8; text appended after endlog']
